@@ -403,6 +403,8 @@ class History:
                 if not any(feats[i][1]):
                     feats[i][1][draw(st.integers(0, nf - 1))] = draw(st.sampled_from([1, -1, 2]))
         q = draw(st.sampled_from([0.0, 0.25, 0.5, 0.75, 1.0, 0.1, 0.9]))
+        if draw(st.booleans()):
+            feats = draw(perm_st(feats))     # the dictionary need not list the arms in the bandit's order
         return self._emit(["warm_start", feats, q])
 
     def cold_arms(self):
